@@ -25,6 +25,8 @@ def conditions(tier):
                                "maximum response size symbolic; every byte string handed to sendall is walked",
                         timeout=900, part="session-answers"))
     for c in c01s.conditions(tier):
+        if c.factory != "struct_rt":
+            continue
         nm = c.kwargs["name"]
         if tier != "thorough" and nm not in QUICK:
             continue
